@@ -237,3 +237,68 @@ plan(Plan(
                  "the bounded oracle uses Python's html.parser as an independent tokenizer"],
 ))
 PLANS["C04"].gconds = PLANS["C04"].gconds + ["G:_NO_ESCAPE_TAG_NAMES:script-style"]
+
+# html_escape serves text (attr=False) and attribute values (attr=True): each property owns its own half
+for _p in ("C02", "C04"):
+    PLANS[_p].relevance = dict(PLANS[_p].relevance, **{"html_escape": ("within", "not attr")})
+PLANS["C03"].relevance = dict(PLANS["C03"].relevance, **{"html_escape": ("within", "attr")})
+
+# C01 holds "up to whitespace at the ends of text runs": a layout deviation inside the domain need not break it, so refuted
+# refinement obligations of the renderer are decided by the parse-back oracle (html.parser), not owned outright
+PLANS["C01"].relevance = {}
+
+
+plan(Plan(
+    id="C17", title="Tag context manager restores the display hook and collects children in order",
+    contracts=[CORE + "Tag.__enter__", CORE + "Tag.__exit__", CORE + "wrap_displayhook_handler.handler_wrapper", CORE + "wrap_displayhook_handler"],
+    lean={"HV.C17": ["C17_hook_restored", "C17_saved_hook_stable", "C17_reenter_raises", "C17_block_restores", "C17_kids_grow", "C17_outer_grows",
+                     "C17_display_in_block", "C17_repr_kept_as_html", "C17_delivered_to_enclosing", "C17_delivered_to_base", "C17_delivered_once"]},
+    oracle="c17", design_ref="§7 C17",
+    claim="__enter__/__exit__/the hook wrapper are verified from the real AST against state transformers on a ghost world (sys.displayhook, every tag's saved hook "
+          "and children); the semantics of nested with-blocks built from those transformers (A4) is proved in Lean to restore the hook and deliver each tag exactly once, for every nesting and every exception point",
+    assumptions=["A4: `with t:` calls t.__exit__ on every exit of the block iff t.__enter__ returned, and re-raises the pending exception since __exit__ returns None",
+                 "tag.append accepts exactly the valid children (C14); the displayed value is classified by the wrapper's own isinstance tests (DVal)",
+                 "the interpreter's REPL calling sys.displayhook for expression statements is outside the library"],
+))
+
+
+DOCP = CORE + "HTMLDocument."
+DOC_FNS = [DOCP + "_hoist_head_content", DOCP + "_gen_html_tag_tree", DOCP + "render"]
+plan(Plan(
+    id="C11", title="HTMLDocument builds one head/body and hoists every dependency into head",
+    contracts=DOC_FNS + TAGIFY_FNS + DEPS_FNS + [CORE + "Tag.__copy__"],
+    lean={"HV.C11": ["first_is_head", "replace_first_same", "nodes_depTagChildren", "hoist_el", "C11_root_is_html", "C11_head_count", "C11_one_head_generated",
+                     "C11_head_content", "C11_rest_untouched", "C11_each_dep_once", "C11_listing", "C11_no_listing_without_deps", "C11_returned_deps", "C11_doctype"]},
+    oracle="c11", design_ref="§7 C11",
+    own=_own("HTMLDocument."),
+    claim="_hoist_head_content, _gen_html_tag_tree and render are verified from the real AST against the document spec (docTree / hoist / docRender); the structure of that "
+          "spec (one html root, one head starting with meta charset, user head content kept in order, listing + each dependency's markup once in resolved order, "
+          "siblings of the head untouched, returned list = resolved list) is proved in Lean",
+    assumptions=["HTMLDependency.as_html_tags is an assumed contract (an uninterpreted function depTags of the dependency, lib_prefix and include_version returning a TagList "
+                 "that contains no dependency objects); its meta/link/script/head order is covered by the bounded oracle only",
+                 "str(version) is an uninterpreted function of the version; head_content()'s naming is C18's subject",
+                 "the content's `ordinary rendering` is the renderer contract of C05-C07 (rtag), used here through Tag.render"],
+    bounded=["B:C11:as_html_tags piece order and single occurrence in the rendered head: oracle with html.parser"],
+))
+
+
+def _c08_own(name):
+    return name.startswith("F:") or _own("Tag.__copy__", "_render_tag_or_taglist", ".tagify", "delegates")(name)
+
+
+plan(Plan(
+    id="C08", title="Rendering and tagify are pure and consistent; tagify returns an independent copy",
+    contracts=TAGIFY_FNS + DEPS_FNS + RENDER_FNS + DOC_FNS + [CORE + "Tag.__copy__", CORE + "_render_tag_or_taglist"],
+    lean={"HV.C09": ["C08_tagify_id_T", "C08_tagify_id_L", "C08_tagify_fixed_point"]},
+    oracle="c08", design_ref="§7 C08", own=_c08_own,
+    claim="frame obligations: on every path of tagify / render / get_html_string / get_dependencies / Tag.__copy__ / str() / HTMLDocument._gen_html_tag_tree, "
+          "_hoist_head_content and render every store write targets an object allocated in that activation; tagify's result elements that are tags or metadata nodes are "
+          "newly allocated; Tag.__copy__ copies every field into a new object with its own attrs and children; str/repr/_repr_html_ reduce to render()['html'] in the "
+          "default mode; tagify identity-when-nothing-to-expand and fixed point proved in Lean",
+    assumptions=["value semantics with freshness flags (A1): aliasing between distinct parameters is not modelled",
+                 "HTMLDependency.as_html_tags / as_dict / source_path_map / serialize_to_script_json and save_html (file system, deepcopy, os.path) are outside the verified subset: "
+                 "their purity is covered by the bounded oracle's deep snapshots only",
+                 "== (_equals_impl walks __dict__ generically) is covered by the bounded oracle only: rebuilt-equal trees, different kinds, ten kinds of single differences"],
+    bounded=["B:C08:== semantics (_equals_impl): bounded oracle, not an R-obligation",
+             "B:C08:purity of the HTMLDependency methods and save_html: bounded oracle deep snapshot with object identities"],
+))
